@@ -29,6 +29,13 @@ def run(rep, tier, seed):
                 h = multi.MultiHarness("%s rc2[%s] = z3 %s N=%d M=%d" % (system, lvl, "ext" if weakly else "strict", N, M),
                                        ops_, N, M, 2, q_single, same([o["pm"] for o in ops_]))
                 drive.run_op(rep, h)
+    # conditionals with multi-clause CNFs (compound positions): the real enumeration code
+    # sees several soft clauses per conditional on the rc2 side
+    for system in ("system-w", "lex_inf"):
+        for sh in ([{("B", 0): "and"}, {("A", 0): "or"}] if quick else [{("B", 0): "and"}, {("A", 0): "or"}, {("B", 0): "or_and"}, {("B", 1): "and", ("A", 0): "or"}]):
+            ops_ = [dict(system=system, pm="rc2", level="L1", shapes=sh), dict(system=system, pm="z3", shapes=sh)]
+            h = multi.MultiHarness("%s rc2[L1] = z3 strict N=2 M=2 compound %s" % (system, ops.shape_name(sh)), ops_, 2, 2, 2, q_single, same(["rc2", "z3"]))
+            drive.run_op(rep, h)
     # c-inference: two independent runs (independent optimal-model choices = different SAT engines)
     for N, M in ([(2, 1), (2, 2)] if quick else [(2, 1), (2, 2), (3, 2)]):
         ops_ = [dict(system="c-inference", pm="rc2"), dict(system="c-inference", pm="rc2-g4")]
